@@ -16,7 +16,9 @@ import tempfile
 
 pid, k = sys.argv[1], sys.argv[2]
 srcdir = sys.argv[3] if len(sys.argv) > 3 else f"/tmp/wt/out/{pid}/m{k}"
-patch = os.path.join(srcdir, "patch.diff")
+patch = os.path.join(srcdir, "patch.rebased.diff")
+if not os.path.exists(patch):
+    patch = os.path.join(srcdir, "patch.diff")
 demo = os.path.join(srcdir, "demo.py")
 PY = "/venv/bin/python"
 
@@ -42,7 +44,13 @@ try:
     rc0, out0 = run([PY, demo], cwd="/var/tmp", env=env, timeout=180)
     res["demo_without_change"] = {"exit": rc0, "tail": out0[-300:]}
     rc, out = run(["git", "-C", wt, "apply", patch])
+    if rc != 0:
+        rc, out = run(["patch", "-s", "-p1", "-i", patch], cwd=wt)
+        res["applied_with_fuzz"] = rc == 0
+        for junk in ("orig", "rej"):
+            subprocess.run(f"find {wt} -name '*.{junk}' -delete", shell=True)
     res["applies"] = rc == 0
+    applied_diff = subprocess.run(["git", "-C", wt, "diff"], capture_output=True, text=True).stdout
     if rc != 0:
         res["apply_error"] = out[-400:]
     else:
@@ -63,7 +71,10 @@ print(json.dumps(res, indent=1))
 if res.get("confirmed"):
     dst = f"/verif/seeded/{pid}-{k}"
     os.makedirs(dst, exist_ok=True)
-    shutil.copy(patch, dst + "/patch.diff")
+    # store the patch as it applies to the current HEAD (git diff of the scratch worktree)
+    open(dst + "/patch.diff", "w").write(applied_diff)
+    if open(os.path.join(srcdir, "patch.diff")).read() != applied_diff:
+        shutil.copy(os.path.join(srcdir, "patch.diff"), dst + "/patch.original.diff")
     shutil.copy(demo, dst + "/demo.py")
     notes = os.path.join(srcdir, "notes.md")
     if os.path.exists(notes):
